@@ -952,7 +952,29 @@ class Gen:
         rel, selector = pos[0], pos[1]
         src, it = self.find_fn(rel, selector)
         loops = find_loops(src, it.body_open, it.end)
-        n = int(kw['loop'])
+        if 'after' in kw:
+            # semantic anchor: the first loop that follows the given text (e.g. the pattern of the match arm it lives in), so that
+            # re-ordering arms / statements cannot silently pair a contract with another loop
+            needle = norm(kw['after'].replace('~', ' '))
+            base = src.toks[it.body_open].start
+            body_n = norm(src.text[base:src.toks[it.end].end])
+            if body_n.count(needle) != 1:
+                raise LostAnchor('loopbody after=%r: %d occurrences in %s' % (kw['after'], body_n.count(needle), selector))
+            # map the normalised offset back: walk tokens until the normalised prefix covers the needle start
+            target = body_n.index(needle)
+            acc = 0
+            pos_tok = None
+            for k in range(it.body_open, it.end + 1):
+                acc += len(norm(src.toks[k].text))
+                if acc > target:
+                    pos_tok = k
+                    break
+            cand = [i for i, l in enumerate(loops) if l[0] >= pos_tok]
+            if not cand:
+                raise LostAnchor('loopbody after=%r: no loop follows in %s' % (kw['after'], selector))
+            n = cand[0]
+        else:
+            n = int(kw['loop'])
         if n >= len(loops):
             raise LostAnchor('loop %d not found in %s' % (n, selector))
         kwtok, kind, hdr, bopen = loops[n]
